@@ -25,11 +25,11 @@ def main():
             os.makedirs(tdir, exist_ok=True)
             shutil.copy(os.path.join(d, 'demo.rs'), os.path.join(tdir, 'demo_seed.rs'))
             pkg = 'cel-parser' if crate == 'antlr' else 'cel-interpreter'
-            rc0, out0 = sh('cargo test -p %s --offline --test demo_seed 2>&1 | tail -15' % pkg, wt)
+            rc0, out0 = sh('cargo test -p %s --offline %s --test demo_seed 2>&1 | tail -15' % (pkg, '--features json' if pkg == 'cel-interpreter' else ''), wt)
             clean_pass = 'test result: ok' in out0
             rc, out = sh('git apply %s' % os.path.join(d, 'patch.diff'), wt)
             applied = rc == 0
-            rc1, out1 = sh('cargo test -p %s --offline --test demo_seed 2>&1 | tail -15' % pkg, wt)
+            rc1, out1 = sh('cargo test -p %s --offline %s --test demo_seed 2>&1 | tail -15' % (pkg, '--features json' if pkg == 'cel-interpreter' else ''), wt)
             mut_fail = 'test result: FAILED' in out1 or 'panicked' in out1
             os.remove(os.path.join(tdir, 'demo_seed.rs'))
             rc2, out2 = sh('cargo test --workspace --offline 2>&1 | grep "test result" ', wt)
